@@ -78,6 +78,7 @@ def _response_coefficient_worker(
     """
     old = model.get_parameter_values()[parameter]
     if y0 is not None:
+        old_variables = model.get_raw_variables()
         model.update_variables(y0)
 
     model.update_parameters({parameter: old * (1 + displacement)})
@@ -113,6 +114,8 @@ def _response_coefficient_worker(
         )
         conc_resp *= old / norm.variables.iloc[-1]
         flux_resp *= old / norm.fluxes.iloc[-1]
+    if y0 is not None:
+        model.update_variables(old_variables)
     return conc_resp, flux_resp
 
 
